@@ -35,6 +35,16 @@ impl SizeEntry {
             });
         }
 
+        // The esize field is `esize_bytes` wide on the wire; a larger value would be
+        // truncated by the writer and the manifest would no longer parse back.
+        let width = header.esize_bytes();
+        if width < 8 && (self.esize >> (8 * u32::from(width))) != 0 {
+            return Err(crate::size::error::SizeError::EsizeTooLarge {
+                esize: self.esize,
+                width,
+            });
+        }
+
         Ok(())
     }
 
